@@ -547,7 +547,7 @@ func checkC04(c *ev.Ctx) {
 		scheds := []struct {
 			name string
 			l    []int
-		}{{"readall", nil}, {"one-byte", []int{1}}}
+		}{{"readall", nil}, {"one-byte", []int{1}}, {"io.Copy", []int{-1}}}
 		if j.kind == "edit" || j.kind == "sealflip" {
 			var ex []int
 			for _, bl := range s.S.Blocks {
